@@ -1,1 +1,218 @@
-(* Front/Ast.v -- stub, to be filled *)
+(* Front/Ast.v -- layer F1/F2: the data types of asn1rs-model/src/model.rs and asn/*.rs that the parser
+   builds and the resolver maps, for both resolve states.
+
+   Rust                                              model
+   -----------------------------------------------   ------------------------------------------------
+   String                                            str = list N (code points)
+   LitOrRef<T>                                        lit_or_ref T
+   Tag::{Universal,Application,ContextSpecific,       atag
+        Private}(usize)
+   LiteralValue                                       literal
+   Size<T>                                            size T
+   Range<Option<T>>(min, max, extensible)             option T * option T * bool
+   Charset                                            charset
+   Type<RS>, Asn<RS>, Field<Asn<RS>>,                 ty S R C / asn S R C / fields as (str * asn) lists
+     ComponentTypeList<RS>, Choice<RS>, Enumerated      (S R C = SizeType RangeType ConstType of the state)
+   ObjectIdentifier / Import / Definition /           oidc, import, amodel
+     ValueReference / Model<Asn<RS>>
+   usize, u64                                         N (bounded by the parsers: < 2^64);  i64: Z
+
+   The same file holds the result type of the front end ([pres]: errors carry their kind and the offending
+   token, as parse::ErrorKind does; fuel exhaustion is its own constructor). *)
+From A1 Require Export Base.Res Front.Lex.
+Local Open Scope N_scope.
+
+Definition str := list N.
+
+Inductive lit_or_ref (A : Type) : Type :=
+| Lit (a : A)
+| Ref (s : str).
+Arguments Lit {A} a.
+Arguments Ref {A} s.
+
+Inductive atag : Type :=
+| TagUniversal (n : N) | TagApplication (n : N) | TagContext (n : N) | TagPrivate (n : N).
+
+Inductive literal : Type :=
+| LBool (b : bool)
+| LString (s : str)
+| LInteger (z : Z)
+| LOctets (bs : list N)
+| LEnumVariant (t v : str).
+
+Inductive size (A : Type) : Type :=
+| SAny
+| SFix (n : A) (ext : bool)
+| SRange (lo hi : A) (ext : bool).
+Arguments SAny {A}.
+Arguments SFix {A} n ext.
+Arguments SRange {A} lo hi ext.
+
+Inductive charset : Type := Utf8 | Numeric | Printable | Ia5 | Visible.
+
+Definition arange (A : Type) : Type := (option A * option A * bool)%type.
+
+Section Types.
+  Variables S R C : Type.
+
+  Inductive ty : Type :=
+  | TBoolean
+  | TInteger (r : arange R) (consts : list (str * Z))
+  | TString (s : size S) (c : charset)
+  | TOctetString (s : size S)
+  | TBitString (s : size S) (consts : list (str * N))
+  | TNull
+  | TOptional (t : ty)
+  | TDefault (t : ty) (l : literal)
+  | TSequence (fields : list (str * (option atag * ty * option C))) (ext : option N)
+  | TSequenceOf (t : ty) (s : size S)
+  | TSet (fields : list (str * (option atag * ty * option C))) (ext : option N)
+  | TSetOf (t : ty) (s : size S)
+  | TEnumerated (variants : list (str * option N)) (ext : option N)
+  | TChoice (variants : list (str * option atag * ty)) (ext : option N)
+  | TRef (name : str) (tag : option atag).
+
+  (* Asn<RS> { tag, r#type, default } *)
+  Definition asn : Type := (option atag * ty * option C)%type.
+  Definition afield : Type := (str * asn)%type.
+End Types.
+Arguments TBoolean {S R C}.
+Arguments TInteger {S R C} r consts.
+Arguments TString {S R C} s c.
+Arguments TOctetString {S R C} s.
+Arguments TBitString {S R C} s consts.
+Arguments TNull {S R C}.
+Arguments TOptional {S R C} t.
+Arguments TDefault {S R C} t l.
+Arguments TSequence {S R C} fields ext.
+Arguments TSequenceOf {S R C} t s.
+Arguments TSet {S R C} fields ext.
+Arguments TSetOf {S R C} t s.
+Arguments TEnumerated {S R C} variants ext.
+Arguments TChoice {S R C} variants ext.
+Arguments TRef {S R C} name tag.
+
+(* the two resolve states *)
+Definition uty : Type := ty (lit_or_ref N) (lit_or_ref Z) (lit_or_ref literal).
+Definition uasn : Type := asn (lit_or_ref N) (lit_or_ref Z) (lit_or_ref literal).
+Definition rty : Type := ty N Z literal.
+Definition rasn : Type := asn N Z literal.
+
+Inductive oidc : Type :=
+| NameForm (s : str)
+| NumberForm (n : N)
+| NameAndNumberForm (s : str) (n : N).
+
+Record import : Type := { i_what : list str; i_from : str; i_from_oid : option (list oidc) }.
+
+Record amodel (A : Type) : Type := {
+  m_name : str;
+  m_oid : option (list oidc);
+  m_imports : list import;
+  m_definitions : list (str * A);
+  m_value_references : list (str * A * literal)
+}.
+Arguments m_name {A} a.
+Arguments m_oid {A} a.
+Arguments m_imports {A} a.
+Arguments m_definitions {A} a.
+Arguments m_value_references {A} a.
+
+(* ---------- results of the front end ---------- *)
+
+(* parse::ErrorKind, numbered as harness/a1h/src/parse.rs does *)
+Definition E_EXPECTED_TEXT : N := 0.
+Definition E_EXPECTED_TEXT_GOT : N := 1.
+Definition E_EXPECTED_SEPARATOR : N := 2.
+Definition E_EXPECTED_SEPARATOR_GOT : N := 3.
+Definition E_UNEXPECTED_TOKEN : N := 4.
+Definition E_MISSING_MODULE_NAME : N := 5.
+Definition E_END_OF_STREAM : N := 6.
+Definition E_INVALID_RANGE_VALUE : N := 7.
+Definition E_INVALID_NUMBER_FOR_ENUM_VARIANT : N := 8.
+Definition E_INVALID_VALUE_FOR_CONSTANT : N := 9.
+Definition E_INVALID_TAG : N := 10.
+Definition E_INVALID_POSITION_FOR_EXTENSION_MARKER : N := 11.
+Definition E_INVALID_INT_TEXT : N := 12.
+Definition E_UNSUPPORTED_LITERAL : N := 13.
+Definition E_INVALID_LITERAL : N := 14.
+
+Inductive pres (A : Type) : Type :=
+| POk (a : A)
+| PErr (kind : N) (t : option token)
+| PPanic (p : N)
+| POutOfFuel.
+Arguments POk {A} a.
+Arguments PErr {A} kind t.
+Arguments PPanic {A} p.
+Arguments POutOfFuel {A}.
+
+Definition pbind {A B} (r : pres A) (f : A -> pres B) : pres B :=
+  match r with
+  | POk a => f a
+  | PErr k t => PErr k t
+  | PPanic p => PPanic p
+  | POutOfFuel => POutOfFuel
+  end.
+
+Notation "'let?' x ':=' r 'in' k" := (pbind r (fun x => k))
+  (at level 200, x pattern, r at level 100, k at level 200, right associativity).
+
+(* resolve::Error *)
+Inductive rerr : Type :=
+| FailedToResolveType (name : str)
+| FailedToResolveReference (name : str)
+| FailedToParseLiteral (text : str).
+
+(* RDiverge: the Rust lookup recurses without bound (stack overflow, process abort); see Front/Resolve.v *)
+Inductive rres (A : Type) : Type :=
+| ROk (a : A)
+| RErr (e : rerr)
+| RDiverge.
+Arguments ROk {A} a.
+Arguments RErr {A} e.
+Arguments RDiverge {A}.
+
+Definition rbind {A B} (r : rres A) (f : A -> rres B) : rres B :=
+  match r with ROk a => f a | RErr e => RErr e | RDiverge => RDiverge end.
+
+Notation "'let^' x ':=' r 'in' k" := (rbind r (fun x => k))
+  (at level 200, x pattern, r at level 100, k at level 200, right associativity).
+
+(* ---------- strings ---------- *)
+
+Fixpoint str_eqb (a b : str) : bool :=
+  match a, b with
+  | [], [] => true
+  | x :: a', y :: b' => (x =? y) && str_eqb a' b'
+  | _, _ => false
+  end.
+
+Lemma str_eqb_eq : forall a b, str_eqb a b = true <-> a = b.
+Proof.
+  induction a as [|x a IH]; destruct b as [|y b]; simpl; split; intros H; try discriminate; auto.
+  - apply andb_true_iff in H. destruct H as [H1 H2]. apply N.eqb_eq in H1. apply IH in H2. subst; reflexivity.
+  - inversion H; subst. rewrite N.eqb_refl. simpl. apply IH. reflexivity.
+Qed.
+
+Lemma str_eqb_refl : forall a, str_eqb a a = true.
+Proof. intros a. apply str_eqb_eq. reflexivity. Qed.
+
+Definition to_ascii_lower (c : N) : N := if (65 <=? c) && (c <=? 90) then c + 32 else c.
+
+(* str::eq_ignore_ascii_case *)
+Fixpoint eq_ignore_case (a b : str) : bool :=
+  match a, b with
+  | [], [] => true
+  | x :: a', y :: b' => (to_ascii_lower x =? to_ascii_lower y) && eq_ignore_case a' b'
+  | _, _ => false
+  end.
+
+Definition is_ascii_digit (c : N) : bool := (48 <=? c) && (c <=? 57).
+
+Fixpoint ends_with (s suffix : str) : bool :=
+  if str_eqb s suffix then true
+  else match s with
+       | [] => false
+       | _ :: s' => ends_with s' suffix
+       end.
